@@ -73,7 +73,7 @@ func c03Specs(tier string, seed int) []c03Spec {
 	}
 	// every ordered pair of feature lines: scheduled / automatic irrigation, precipitation correction, another
 	// missing-value code, groundwater sources, the other project (soil table with other column order)
-	feat := []string{"A", "C", "Ca", "Ap", "An", "As", "Ag"}
+	feat := []string{"A", "C", "Ca", "Cal", "Ap", "An", "As", "Ag"}
 	for _, x := range feat {
 		for _, y := range feat {
 			if x != y && !(x == "A" && y == "C") && !(x == "C" && y == "A") {
@@ -92,19 +92,24 @@ func c03Specs(tier string, seed int) []c03Spec {
 		out = append(out, c03Spec{Kind: "repeat", Batch: []string{n}})
 	}
 	// split the heavy explorations (bound >= 2 with 3+ lines) into 8 shards each; heavy ones first so that they start early
-	var heavy, light []c03Spec
+	// order: the sequential families first (cheap; they must not starve when a change to the code under test makes the
+	// explorations slower), then the heavy explorations, then the light ones
+	var seqs, heavy, light []c03Spec
 	for _, s := range out {
-		if s.Kind == "e3" && len(s.Batch) >= 3 && (s.Bound >= 2 || s.Bound < 0) {
+		switch {
+		case s.Kind != "e3":
+			seqs = append(seqs, s)
+		case len(s.Batch) >= 3 && (s.Bound >= 2 || s.Bound < 0):
 			for k := 0; k < 8; k++ {
 				t := s
 				t.Shard, t.Shards = k, 8
 				heavy = append(heavy, t)
 			}
-		} else {
+		default:
 			light = append(light, s)
 		}
 	}
-	return append(heavy, light...)
+	return append(append(seqs, heavy...), light...)
 }
 
 func init() {
